@@ -133,7 +133,7 @@ def gen_items(run, cpuinfo):
                 forms.append((ln, k))
         if quick:
             rng = random.Random(run.seed * 104729 + zlib.crc32(cpu.encode()))
-            n = max(2, len(forms) // 30)
+            n = max(4, len(forms) // 4)
             forms = rng.sample(forms, min(n, len(forms)))
         for i in range(0, len(forms), 4):
             items.append((cpu, cpuinfo[cpu]["bpa"], forms[i:i + 4]))
